@@ -6,6 +6,7 @@ import (
 	"bytes"
 	"context"
 	"encoding/hex"
+	"encoding/json"
 	"fmt"
 	"strings"
 	"sync"
@@ -13,8 +14,10 @@ import (
 
 	"github.com/indexsupply/shovel/dig"
 	"github.com/indexsupply/shovel/eth"
+	"github.com/indexsupply/shovel/shovel/config"
 	"github.com/indexsupply/shovel/wctx"
 	"github.com/indexsupply/shovel/wpg"
+	"github.com/jackc/pgx/v5/pgxpool"
 	"pgregory.net/rapid"
 
 	"verifharness/evid"
@@ -236,6 +239,7 @@ func TestC13_SeveralIntegrations(t *testing.T) {
 			raw   []byte
 			heldK []byte // the slice eth.Keccak(raw) returned, not copied
 			ig    dig.Integration
+			ig2   dig.Integration
 		}
 		var all []*one
 		seen := map[string]bool{}
@@ -260,6 +264,16 @@ func TestC13_SeveralIntegrations(t *testing.T) {
 				rt.Fatalf("dig.New: %v", err)
 			}
 			o.ig = ig
+			// a second destination built from the same parsed declaration (second source
+			// of the integration, or the next generation after a restart)
+			ig2, err := dig.New(fmt.Sprintf("ig%d", i), de, []dig.BlockData{{Name: "log_idx", Column: "log_idx"}}, wpg.Table{Name: "t", Columns: cols}, dig.Notification{}, "or")
+			if err != nil {
+				rt.Fatalf("VERIF-VIOLATION property=C13 building a second integration from the same declaration failed: %v (%s)", err, e.Signature())
+			}
+			o.ig2 = ig2
+			if got := de.SignatureHash(); !bytes.Equal(got, e.SigHash()) {
+				rt.Fatalf("VERIF-VIOLATION property=C13 after integrations were built from it the declaration hashes to %x (signature %q), want %x (%s)", got, de.Signature(), e.SigHash(), e.Signature())
+			}
 			all = append(all, o)
 		}
 		for i, o := range all {
@@ -270,10 +284,12 @@ func TestC13_SeveralIntegrations(t *testing.T) {
 			if w := refmodel.Keccak256(o.raw); !bytes.Equal(o.heldK, w) {
 				rt.Fatalf("VERIF-VIOLATION property=C13 the value Keccak(%x) returned changed to %x after later calls (want %x)", o.raw, o.heldK, w)
 			}
-			f := o.ig.Filter()
-			tp := f.Topics()
-			if len(tp) != 1 || len(tp[0]) != 1 || !strings.EqualFold(strings.TrimPrefix(tp[0][0], "0x"), hex.EncodeToString(want)) {
-				rt.Fatalf("VERIF-VIOLATION property=C13 integration %d of %d (%s) asks the source for topic %v, its signature hash is %x", i, len(all), o.e.Signature(), tp, want)
+			for which, g := range []dig.Integration{o.ig, o.ig2} {
+				f := g.Filter()
+				tp := f.Topics()
+				if len(tp) != 1 || len(tp[0]) != 1 || !strings.EqualFold(strings.TrimPrefix(tp[0][0], "0x"), hex.EncodeToString(want)) {
+					rt.Fatalf("VERIF-VIOLATION property=C13 integration %d of %d (%s, build #%d from its declaration) asks the source for topic %v, its signature hash is %x", i, len(all), o.e.Signature(), which+1, tp, want)
+				}
 			}
 			// the gate: a log of its own event gives rows, a log of every other event gives none
 			for j, other := range all {
@@ -290,7 +306,11 @@ func TestC13_SeveralIntegrations(t *testing.T) {
 				cc := &capConn{}
 				ctx := wctx.WithChainID(wctx.WithSrcName(context.Background(), "src"), 1)
 				var ierr error
-				if p := catch(func() { _, ierr = o.ig.Insert(ctx, new(sync.Mutex), cc, []eth.Block{blk}) }); p != nil {
+				target := o.ig
+				if j%2 == 1 || (j == i && rapid.Bool().Draw(rt, "second")) {
+					target = o.ig2
+				}
+				if p := catch(func() { _, ierr = target.Insert(ctx, new(sync.Mutex), cc, []eth.Block{blk}) }); p != nil {
 					rt.Fatalf("VERIF-VIOLATION property=C13 Insert panicked: %v", p)
 				}
 				wantRows := 0
@@ -310,6 +330,114 @@ func TestC13_SeveralIntegrations(t *testing.T) {
 			var sigs []string
 			for _, o := range all {
 				sigs = append(sigs, o.e.Signature())
+			}
+			ev.Sample(3, sigs)
+		}
+	})
+}
+
+// TestC13_StoredIntegrations: integrations stored in shovel.integrations (as the
+// dashboard stores them) are loaded back by config.Integrations; every loaded
+// declaration must hash to the topic of the declaration that was stored under its
+// name, with the indexed layout that was stored, and its gate must accept a log of
+// its own event — whatever else is stored next to it.
+func TestC13_StoredIntegrations(t *testing.T) {
+	ev := evid.For("C13", "StoredIntegrations")
+	pg, _ := env()
+	rapid.Check(t, func(rt *rapid.T) {
+		k := rapid.IntRange(2, 4).Draw(rt, "nstored")
+		name := fmt.Sprintf("stored%d", dbSeq.Add(1))
+		db := pg.NewDB(name)
+		db.ApplyShovelSchema()
+		defer pg.DropDB(name)
+		pool, err := pgxpool.New(context.Background(), pg.URL(name))
+		if err != nil {
+			rt.Fatalf("VERIF-INCONCLUSIVE pool: %v", err)
+		}
+		defer pool.Close()
+		byName := map[string]*refmodel.Event{}
+		var order []string
+		sameShape := false
+		for i := 0; i < k; i++ {
+			var e *refmodel.Event
+			if i > 0 && rapid.Bool().Draw(rt, "variant") {
+				// same name and types as an earlier one, other indexed flags / selections (ERC-20 vs ERC-721 Transfer)
+				e = refmodel.CloneEvent(byName[order[rapid.IntRange(0, i-1).Draw(rt, "of")]], true)
+				for _, in := range e.Inputs {
+					if in.IsLeaf() && in.Kind != refmodel.KBytes && in.Kind != refmodel.KString && rapid.Bool().Draw(rt, "flip") {
+						in.Indexed = !in.Indexed
+					}
+				}
+				sameShape = true
+			} else {
+				e = gen.GenEvent(rt, gen.EventOpts{Types: gen.TypeOpts{MaxDepth: 1, MaxTuple: 2, MaxFixed: 2}, MaxInputs: 4, AllowIndexed: true, SelProb: 70})
+			}
+			if len(e.Selected()) == 0 {
+				e.Inputs = append(e.Inputs, &refmodel.Type{Kind: refmodel.KUint, Bits: 256, Name: "extra", Column: "c98"})
+			}
+			d := &refmodel.Decl{Name: fmt.Sprintf("ig%d", i), Enabled: true, Table: "t", Event: e, Filters: map[*refmodel.Type]*refmodel.Filter{}, Sources: []refmodel.SourceRef{{Name: "src1", Start: 1}}}
+			for _, s := range e.Selected() {
+				d.Columns = append(d.Columns, refmodel.Column{Name: s.Column, Type: "bytea"})
+			}
+			conf, _ := json.Marshal(d.JSON())
+			if _, err := pool.Exec(context.Background(), `insert into shovel.integrations(name, conf) values ($1, $2)`, d.Name, conf); err != nil {
+				rt.Fatalf("VERIF-INCONCLUSIVE storing: %v", err)
+			}
+			byName[d.Name] = e
+			order = append(order, d.Name)
+		}
+		loaded, err := config.Integrations(context.Background(), pool)
+		if err != nil {
+			rt.Fatalf("VERIF-VIOLATION property=C13 loading the stored integrations failed: %v", err)
+		}
+		if len(loaded) != k {
+			rt.Fatalf("VERIF-VIOLATION property=C13 %d integrations stored, %d loaded", k, len(loaded))
+		}
+		for _, ig := range loaded {
+			e := byName[ig.Name]
+			if e == nil {
+				rt.Fatalf("VERIF-VIOLATION property=C13 loaded an integration named %q that was not stored", ig.Name)
+			}
+			if got, want := ig.Event.Signature(), e.Signature(); got != want {
+				rt.Fatalf("VERIF-VIOLATION property=C13 stored integration %s was declared as %s and is loaded as %s (%d stored: %v)", ig.Name, want, got, k, order)
+			}
+			if got, want := ig.Event.SignatureHash(), e.SigHash(); !bytes.Equal(got, want) {
+				rt.Fatalf("VERIF-VIOLATION property=C13 stored integration %s (%s) is loaded with signature hash %x, want %x", ig.Name, e.Signature(), got, want)
+			}
+			var cols []wpg.Column
+			for _, s := range e.Selected() {
+				cols = append(cols, wpg.Column{Name: s.Column, Type: "bytea"})
+			}
+			cols = append(cols, wpg.Column{Name: "log_idx", Type: "int"})
+			g, err := dig.New(ig.Name, ig.Event, []dig.BlockData{{Name: "log_idx", Column: "log_idx"}}, wpg.Table{Name: "t", Columns: cols}, dig.Notification{}, "or")
+			if err != nil {
+				rt.Fatalf("VERIF-VIOLATION property=C13 stored integration %s (%s) cannot be built after loading: %v", ig.Name, e.Signature(), err)
+			}
+			vals := gen.GenEventValues(rt, e, gen.ValueOpts{MaxDynLen: 2, MaxBytes: 20})
+			topics, data := e.LogOf(vals)
+			l := eth.Log{Idx: 1, Address: make([]byte, 20), Data: data}
+			for _, x := range topics {
+				l.Topics = append(l.Topics, eth.Bytes(x))
+			}
+			blk := eth.Block{Header: eth.Header{Number: 9, Hash: make([]byte, 32)}}
+			tx := eth.Tx{Idx: 0}
+			tx.Logs = append(tx.Logs, l)
+			blk.Txs = append(blk.Txs, tx)
+			cc := &capConn{}
+			ctx := wctx.WithChainID(wctx.WithSrcName(context.Background(), "src"), 1)
+			var ierr error
+			if p := catch(func() { _, ierr = g.Insert(ctx, new(sync.Mutex), cc, []eth.Block{blk}) }); p != nil {
+				rt.Fatalf("VERIF-VIOLATION property=C13 Insert panicked for stored integration %s: %v", ig.Name, p)
+			}
+			if want := len(e.DataRows(vals)); ierr != nil || len(cc.rows) != want {
+				rt.Fatalf("VERIF-VIOLATION property=C13 stored integration %s (%s, %d indexed) emitted %d rows (err %v) for a log of its own event, want %d; stored next to it: %v", ig.Name, e.Signature(), e.NumIndexed(), len(cc.rows), ierr, want, order)
+			}
+		}
+		ev.Case(sameShape, fmt.Sprint(order, byName[order[0]].Signature()), fmt.Sprintf("stored=%d", k), fmt.Sprintf("sameSignatureOtherLayout=%v", sameShape))
+		if sameShape && ev.WantSample(3) {
+			var sigs []string
+			for _, n := range order {
+				sigs = append(sigs, fmt.Sprintf("%s indexed=%d", byName[n].Signature(), byName[n].NumIndexed()))
 			}
 			ev.Sample(3, sigs)
 		}
